@@ -3,10 +3,9 @@
    bad-lexeme characters are consecutive, non-empty and cover the input exactly (nothing is
    dropped, duplicated or reordered); every skipped span is exactly one line splice; every
    character that starts no token has its BAD_LEXEME diagnostic at its true position.
-   The remaining clause - the text of each token is its raw span up to the documented
-   normalisations (Spec/Normalise.norm_ok) - is stated below as C10_statement_text, evaluated by
-   the check on the model and on the implementation for every explored string, and NOT proved
-   (C10 is therefore `partial`: tiling/reporting proved, token text tested). *)
+   The text of every token (its value, or the spelling of its type) is its raw span up to the documented
+   normalisations, as the independent specification Spec/Normalise.norm_ok decides it - proved for every input and
+   every token kind (Proofs/LexText.v): C10_statement_text, the full executable statement, is a theorem. *)
 From NV Require Import Model.Base Model.Diag Model.Lexer Spec.TruePos Spec.Normalise Spec.LexProps Proofs.LexMain Proofs.LexTies.
 
 Theorem C10_spans_tile : forall (uw ud : N -> bool) (src : str) items xf,
@@ -39,7 +38,7 @@ Proof.
 Qed.
 Print Assumptions C10_skips_are_splices.
 
-(* the full statement, kept visible; its last conjunct (token text) is tested, not proved *)
+(* the full statement (proved below: C10_statement_text_holds) *)
 Definition C10_statement_text : Prop := forall (uw ud : N -> bool) (src : str) items xf,
   lex uw ud src = Ok (items, xf) -> c10_ok src items (errs xf) = true.
 
@@ -50,3 +49,46 @@ Example C10_example :
   | _ => False
   end.
 Proof. vm_compute. split; reflexivity. Qed.
+
+(* ---- the token-TEXT clause, proved for every input (Proofs/LexText.v): the text of every token (its value, or the
+   spelling of its type) is its raw span up to the documented normalisations, as Spec/Normalise.norm_ok decides it
+   (line splices removed - or, after an escaped backslash inside a literal, kept verbatim -, di/trigraphs replaced,
+   tabs of block comments expanded at the true column).  All token kinds are covered; with C10_spans_tile,
+   C10_skips_are_splices and C10_bad_lexeme_reported this closes the full executable statement c10_ok. *)
+From NV Require Import Proofs.LexText.
+
+Theorem C10_token_text : forall (uw ud : N -> bool) (src : str) items xf,
+  lex uw ud src = Ok (items, xf) -> forall t lo hi, In (ITok t lo hi) items -> c10_tok_ok src t lo hi = true.
+Proof. exact c10_text. Qed.
+Print Assumptions C10_token_text.
+
+Theorem C10_full : forall (uw ud : N -> bool) (src : str) items xf,
+  lex uw ud src = Ok (items, xf) -> c10_ok src items (errs xf) = true.
+Proof. exact c10_full. Qed.
+Print Assumptions C10_full.
+
+Theorem C10_statement_text_holds : C10_statement_text.
+Proof. exact c10_full. Qed.
+Print Assumptions C10_statement_text_holds.
+
+(* the tool's di/trigraph tables are the standard's (the specification has its own copy) *)
+Theorem C10_trigraphs_are_standard :
+  forallb (fun kv => match fst kv with
+                     | [a; b; c] => match std_trigraph a b c with Some t => str_eqb (snd kv) [t] | None => false end
+                     | _ => false end) trigraphs = true.
+Proof. exact trigraphs_std. Qed.
+Print Assumptions C10_trigraphs_are_standard.
+Theorem C10_digraphs_are_standard :
+  forallb (fun kv => match fst kv with
+                     | [a; b] => match std_digraph a b with Some t => str_eqb (snd kv) [t] | None => false end
+                     | _ => false end) digraphs = true.
+Proof. exact digraphs_std. Qed.
+Print Assumptions C10_digraphs_are_standard.
+
+(* non-vacuity on tricky inputs: escaped trigraph in a string, `\\` + newline in a string, a splice inside an identifier,
+   a tab in a block comment after a splice; and the specification rejects wrong texts *)
+Example C10_tricky_inputs :
+  c10_eval ([34; 97; 92; 63; 63; 47; 98; 34]%N ++ s ";") = true /\ c10_eval ([34; 97; 92; 92; 10; 98; 34]%N) = true /\
+  c10_eval (s "ab" ++ [92; 10]%N ++ s "cd = 1;") = true /\ c10_eval (s "/*" ++ [92; 10; 9]%N ++ s "*/") = true /\
+  norm_ok false 1 (s "a<:b") (s "a<:b") = false /\ norm_ok true 3 [9%N] [9%N] = false.
+Proof. vm_compute. repeat split; reflexivity. Qed.
